@@ -219,7 +219,10 @@ def run():
     # ------------------------------------------------------------------ rehash task closure
     def task():
         from obligations import C03
-        rep.add(C03.task_obligation(prog, engs, fn, key="rehash:task"))
+        o = C03.task_obligation(prog, engs, fn, key="rehash:task")
+        if o.verdict == "violated":
+            replay(o, ctx)
+        rep.add(o)
     guarded("rehash task closure", task)
 
     # ------------------------------------------------------------------ file info
